@@ -13,7 +13,8 @@
    Css/RoundTripSep.v, Css/RoundTripList.v, Css/RoundTripBuild.v, Css/TokWfLex.v,
    Css/TokWfBuild.v. *)
 From Verif Require Import Css.Ser Css.RetokSpec Css.SerWf Css.SerProofs Css.RoundTripTok Css.RoundTripSep
-  Css.RoundTripList Css.RoundTripBuild Css.TokWfLex Css.TokWfBuild Css.SerCompound Css.SerCompoundProofs.
+  Css.RoundTripList Css.RoundTripBuild Css.TokWfLex Css.TokWfBuild Css.SerCompound Css.SerCompoundProofs
+  Css.SerCompoundProofs2.
 From Coq Require Import List NArith Bool.
 Import ListNotations.
 Open Scope N_scope.
@@ -207,6 +208,44 @@ Theorem C20_compound_roundtrip_partial : forall c s,
   read_back c (norm (tokenize true s)) = Some (norm_compound c).
 Proof. intros c s Hr Hw Hp Hs. rewrite (C20_rule_tokenizes_back c s Hr Hw Hs). exact Hp. Qed.
 Print Assumptions C20_compound_roundtrip_partial.
+
+(* partial2 (Css/SerCompoundProofs2.v): every compound kind EXCEPT a declaration
+   carrying `!important` (`not_important c`): qualified rules, at-rules with and
+   without block, and declarations with important = false.  Not covered: CDecl _ _ true
+   (the raw "!important" suffix; e.g. a value ending in the delimiter "<"). *)
+Theorem C20_decl_tokenizes_back : forall n v s,
+  compound_wf (CDecl n v false) = true -> ser_compound (CDecl n v false) = Ok s ->
+  norm (tokenize true s) = norm (compound_tokens (CDecl n v false)).
+Proof. exact decl_tokenizes_back. Qed.
+Print Assumptions C20_decl_tokenizes_back.
+
+Theorem C20_compound_roundtrip_partial2 : forall c s,
+  not_important c = true -> compound_wf c = true ->
+  read_back c (norm (compound_tokens c)) = Some (norm_compound c) ->
+  ser_compound c = Ok s ->
+  read_back c (norm (tokenize true s)) = Some (norm_compound c).
+Proof. exact compound_roundtrip2. Qed.
+Print Assumptions C20_compound_roundtrip_partial2.
+
+(* partial3 (Css/SerCompoundProofs2.v): EVERY compound kind, declarations with
+   `!important` included, under the single side condition `compound_bang_ok c`:
+   for CDecl _ v true the last token of v does not fuse with "!" (bad_pair
+   (ser_type last) "!" = false, i.e. v does not end in the delimiter "<");
+   for all other compounds the condition is `true`.  Still not `_holds`: the
+   statement without that side condition is open. *)
+Theorem C20_decl_important_tokenizes_back : forall n v s,
+  compound_wf (CDecl n v true) = true -> bang_ok v = true -> ser_compound (CDecl n v true) = Ok s ->
+  norm (tokenize true s) = norm (compound_tokens (CDecl n v true)).
+Proof. exact decl_imp_tokenizes_back. Qed.
+Print Assumptions C20_decl_important_tokenizes_back.
+
+Theorem C20_compound_roundtrip_partial3 : forall c s,
+  compound_bang_ok c = true -> compound_wf c = true ->
+  read_back c (norm (compound_tokens c)) = Some (norm_compound c) ->
+  ser_compound c = Ok s ->
+  read_back c (norm (tokenize true s)) = Some (norm_compound c).
+Proof. exact compound_roundtrip3. Qed.
+Print Assumptions C20_compound_roundtrip_partial3.
 
 Module C20CompoundExamples.
 Import Coq.Strings.String.
